@@ -2,7 +2,7 @@ SPECIFICATION Spec
 CONSTANTS
   NF = 2
   MaxLen = 10
-  Kinds = {"mod", "add", "addempty", "del", "rename", "renmod", "copy", "modeonly", "modemod", "bin", "binadd", "bare", "modebin", "renmode"}
+  Kinds = {"mod", "add", "addempty", "del", "rename", "renmod", "copy", "modeonly", "modemod", "bin", "binadd", "bare", "modebin", "renmode", "sublog", "subshort"}
   MaxHunks = 2
   MaxBody = 3
   Preamble = FALSE
